@@ -288,7 +288,7 @@ SERIES_TRANSFORMER_ENUM = [
     {"kind": "imputer", "method": "nearest"}, {"kind": "imputer", "method": "ffill"}, {"kind": "imputer", "method": "random", "random_state": 3},
     {"kind": "imputer", "method": "mean", "missing_values": -999.0}, {"kind": "imputer", "method": "linear", "missing_values": -999.0},
     {"kind": "hampel", "window_length": 5, "n_sigma": 2}, {"kind": "hampel", "window_length": 4, "n_sigma": 1},
-    {"kind": "boxcox", "method": "mle"}, {"kind": "log"}, {"kind": "detrend", "degree": 1}, {"kind": "detrend", "degree": 1, "default": True},
+    {"kind": "boxcox", "method": "mle"}, {"kind": "boxcox", "method": "pearsonr"}, {"kind": "boxcox", "method": "pearsonr", "bounds": [0.0, 2.0]}, {"kind": "log"}, {"kind": "detrend", "degree": 1}, {"kind": "detrend", "degree": 1, "default": True},
     {"kind": "deseason", "sp": 3, "model": "additive"}, {"kind": "deseason", "sp": 4, "model": "multiplicative"},
     {"kind": "cond_deseason", "sp": 3, "model": "additive"}, {"kind": "scaler", "which": "standard"}, {"kind": "scaler", "which": "minmax"},
     {"kind": "passthrough", "inner": {"kind": "log"}, "passthrough": False}, {"kind": "passthrough", "inner": {"kind": "log"}, "passthrough": True},
